@@ -355,6 +355,25 @@ func c03Probes(ref *rm.Schema, level int) []dbx.Txn {
 			rm.Op{Op: "wait", Table: "T", Until: until, Columns: []string{"b"}, Rows: []rm.Row{{"b": bv(true)}, {"b": bv(false)}}})
 		add("wait.set-semantics", fmt.Sprintf("wait all rows e %s {a}", until),
 			rm.Op{Op: "wait", Table: "T", Until: until, Columns: []string{"e"}, Rows: []rm.Row{{"e": str("a")}}})
+		// class (v): collections are compared as values, not as stored: the elements of the expectation in reverse order, an
+		// empty expectation against a column that was never given a value
+		for j, row := range c03StateRows(ref) {
+			for _, cn := range []string{"ss", "si", "sr", "su", "mss"} {
+				v := row[cn]
+				if v.IsMap || len(v.Set) < 2 {
+					continue
+				}
+				rev := rm.Value{}
+				for k := len(v.Set) - 1; k >= 0; k-- {
+					rev.Set = append(rev.Set, v.Set[k])
+				}
+				add("wait.collection-as-value", fmt.Sprintf("wait t1 %s %s (row%d's value, elements reversed)", cn, until, j),
+					rm.Op{Op: "wait", Table: "T", Where: whereUUID(tU[0]), Until: until, Columns: []string{cn}, Rows: []rm.Row{{cn: rev}}})
+			}
+		}
+		add("wait.collection-as-value", fmt.Sprintf("insert t3 {i:5}; wait t3 ss,mss,si %s empty", until),
+			opInsert("T", tU[2], rm.Row{"i": one(5)}),
+			rm.Op{Op: "wait", Table: "T", Where: whereUUID(tU[2]), Until: until, Columns: []string{"ss", "mss", "si"}, Rows: []rm.Row{{"ss": rm.SetOf(), "mss": rm.MapOf(), "si": rm.SetOf()}}})
 		add("wait.no-row", fmt.Sprintf("wait t3 (absent) s %s {}", until),
 			rm.Op{Op: "wait", Table: "T", Where: whereUUID(tU[2]), Until: until, Columns: []string{"s"}, Rows: nil})
 	}
